@@ -39,11 +39,21 @@ class watchdog:
 
     def __enter__(self):
         signal.signal(signal.SIGALRM, _alarm)
-        signal.setitimer(signal.ITIMER_REAL, self.s)
+        # repeat every second after the budget: an alarm that fires inside a __del__ or gc callback is
+        # swallowed ("Exception ignored"), the next tick raises again
+        signal.setitimer(signal.ITIMER_REAL, self.s, 1.0)
 
     def __exit__(self, *a):
         signal.setitimer(signal.ITIMER_REAL, 0)
         return False
+
+
+def reraise_if_timeout(exc):
+    """An alarm that fires inside a ctypes callback (Z3) surfaces as ctypes.ArgumentError('...SoftTimeout...');
+    property modules call this in their `except Exception` handlers so that a budget hit is never mistaken
+    for an exception of the code under test."""
+    if isinstance(exc, SoftTimeout) or "SoftTimeout" in str(exc) or "SoftTimeout" in type(exc).__name__:
+        raise SoftTimeout()
 
 
 def derive(seed, *parts):
